@@ -74,7 +74,7 @@ static void mode_eod(void)
 							env_reset();
 							pfx_table_init(&PFX, NULL);
 							spki_table_init(&SPKI, NULL);
-							memset(SOCK, 0, sizeof(*SOCK));
+							memset(SOCK, 0xA5, sizeof(*SOCK)); /* rtr_init has to initialise every field itself */
 							if (ini == 0) {
 								rtr_init(SOCK, &ENV_TR, &PFX, &SPKI, init[ini][0], init[ini][2], init[ini][1], mode, NULL, NULL, NULL);
 							} else {
@@ -201,7 +201,7 @@ static void mode_init(void)
 				if (v_skipped(crumb))
 					continue;
 				v_crumb("C17|init", crumb);
-				memset(SOCK, 0, sizeof(*SOCK));
+				memset(SOCK, 0xA5, sizeof(*SOCK)); /* rtr_init has to initialise every field itself */
 				int rc = rtr_init(SOCK, &ENV_TR, &PFX, &SPKI, BV[a], BV[c], BV[b], RTR_INTERVAL_MODE_DEFAULT_MIN_MAX, NULL, NULL, NULL);
 
 				V_COUNT("transitions", 2);
